@@ -91,6 +91,31 @@ def check_python(ctx):
     path = os.path.join(ex.REPO, PYFILE)
     ctx.need(os.path.exists(path), "python wrapper %s not found" % PYFILE)
     tree = ast.parse(open(path).read())
+    # the wrapper keeps nothing between calls: no decorated function (a memoising `lru_cache` hands the *same* decoded
+    # object to every later caller with the same texts), no `global` / `nonlocal` rebinding, no module-level container
+    # that a function mutates.  Read on the syntax tree of the whole module (nested helpers included).
+    n_state = 0
+    for node in ast.walk(tree):
+        if isinstance(node, (ast.FunctionDef, ast.AsyncFunctionDef)) and node.decorator_list:
+            n_state += 1
+            ctx.fail("K1.stateless-wrapper", "%s|decorator" % node.name, "the wrapper function %s is decorated (%s): a decorator can keep state between calls (a cache returns one shared result object to later callers) — the wrapper may only serialise, call the native function and deserialise" % (node.name, ", ".join(ast.unparse(d)[:40] for d in node.decorator_list)), where="%s:%d" % (PYFILE, node.lineno))
+        if isinstance(node, (ast.Global, ast.Nonlocal)):
+            n_state += 1
+            ctx.fail("K1.stateless-wrapper", "%s|%s" % (type(node).__name__.lower(), ",".join(node.names)), "the wrapper rebinds %s %s from inside a function: state that survives the call" % (type(node).__name__.lower(), ", ".join(node.names)), where="%s:%d" % (PYFILE, node.lineno))
+    mod_containers = {t.id for st in tree.body if isinstance(st, ast.Assign) and isinstance(st.value, (ast.Dict, ast.List, ast.Set, ast.Call)) for t in st.targets if isinstance(t, ast.Name) and t.id != "__all__"
+                      and (not isinstance(st.value, ast.Call) or (isinstance(st.value.func, ast.Name) and st.value.func.id in ("dict", "list", "set", "OrderedDict", "defaultdict", "WeakValueDictionary")))}
+    for fn_ in [n for n in ast.walk(tree) if isinstance(n, (ast.FunctionDef, ast.AsyncFunctionDef))]:
+        for node in ast.walk(fn_):
+            tgt = None
+            if isinstance(node, ast.Subscript) and isinstance(node.ctx, (ast.Store, ast.Del)) and isinstance(node.value, ast.Name):
+                tgt = node.value.id
+            if isinstance(node, ast.Call) and isinstance(node.func, ast.Attribute) and isinstance(node.func.value, ast.Name) and node.func.attr in ("append", "add", "update", "setdefault", "pop", "clear", "insert", "extend", "popitem", "move_to_end"):
+                tgt = node.func.value.id
+            if tgt in mod_containers:
+                n_state += 1
+                ctx.fail("K1.stateless-wrapper", "%s|mutates %s" % (fn_.name, tgt), "%s mutates the module-level container %s: the wrapper keeps state between calls" % (fn_.name, tgt), where="%s:%d" % (PYFILE, node.lineno))
+    if not n_state:
+        ctx.ok("K1.stateless-wrapper", "no decorator, no global/nonlocal rebinding, no module-level container mutated by a function", nontrivial=True)
     json_alias = None
     native = None
     native_from = None
